@@ -140,6 +140,13 @@ pub fn put_case(r: &mut Rng, n: usize, kind: u8, tokenless: Vec<bool>, script: V
 
 /// `big_extra`: the caller may name 270 token-bearing extra nodes (more than 255 targets)
 pub fn put_case_x(r: &mut Rng, n: usize, kind: u8, tokenless: Vec<bool>, script: Vec<(usize, Act)>, expire: bool, big_extra: bool) -> String {
+    put_case_y(r, n, kind, tokenless, script, expire, big_extra, None)
+}
+
+/// `bystander`: Some(k): after k answers to the store requests have been delivered, somebody on the same node looks the
+/// same target up (a get of any kind); that lookup runs to its end while the store requests are still out, and nobody
+/// hands it a token (errors, token-less answers): it is no business of the put
+pub fn put_case_y(r: &mut Rng, n: usize, kind: u8, tokenless: Vec<bool>, script: Vec<(usize, Act)>, expire: bool, big_extra: bool, bystander: Option<usize>) -> String {
     let mut s = Scn::new(r, n, false, Default::default());
     let sk = SigningKey::from_bytes(&[7u8; 32]);
     let request = make_request(r, kind, 5, None, b"value", &sk);
@@ -198,13 +205,55 @@ pub fn put_case_x(r: &mut Rng, n: usize, kind: u8, tokenless: Vec<bool>, script:
             script.push((n + j, if kind == 1 && j < 200 { Act::Err(302) } else { Act::Ack }));
         }
     }
+    let put_target = *request.target();
     s.node.actor.verif_put(request, tx, extra);
     let run = drive_lookup(&mut s, &tokenless);
+    let (btx, _brx) = flume::unbounded();
+    let mut bystander_left = bystander;
+    let mut run_bystander = |s: &mut Scn, r: &mut Rng| {
+        let gk = *r.pick(&[1u8, 2, 3]);
+        s.node.actor.verif_get(crate::c20::request_of(gk, put_target), dht::verif::ResponseSender::ClosestNodes(btx.clone()));
+        let style = r.below(2);
+        for _round in 0..200 {
+            s.step(&mut |s, inc| {
+                let req = match as_request(&inc.msg) {
+                    Some(q) => q.clone(),
+                    None => return Reply::Silent,
+                };
+                match &req.request_type {
+                    RequestTypeSpecific::Put(_) => Reply::Silent,
+                    _ if is_lookup(&req) => {
+                        let responder_id = Id::from(s.peers[inc.peer].id);
+                        match style {
+                            0 => Reply::Msg(MessageType::Error(ErrorSpecific { code: 204, description: "method unknown".into() })),
+                            1 => Reply::Msg(MessageType::Response(ResponseSpecific::FindNode(FindNodeResponseArguments { responder_id, nodes: vec![].into() }))),
+                            _ => Reply::Silent,
+                        }
+                    }
+                    _ => s.honest(inc),
+                }
+            });
+            if s.snap().iterative_queries == 0 {
+                break;
+            }
+        }
+    };
     let mut result: Option<(Result<Id, PutError>, usize)> = rx.try_recv().ok().map(|x| (x, 0));
     let mut evs: Vec<String> = Vec::new();
     let mut consumed = 0usize;
     if result.is_none() {
         for (p, act) in script.iter() {
+            if bystander_left == Some(0) {
+                bystander_left = None;
+                run_bystander(&mut s, r);
+                if let Ok(x) = rx.try_recv() {
+                    result = Some((x, consumed));
+                    break;
+                }
+            }
+            if let Some(k) = bystander_left.as_mut() {
+                *k -= 1;
+            }
             if let Some((_, tid, _)) = run.puts.iter().find(|(pp, _, _)| pp == p) {
                 deliver(&mut s, *p, *tid, *act);
                 evs.push(match act {
@@ -533,6 +582,15 @@ pub fn generate(seed: u64, scale: usize, which: &str) -> Cases {
         }
         r.shuffle(&mut script);
         cases.push(&format!("random_n{}", n), put_case(&mut r, n, kind, tokenless, script, true));
+    }
+    // a bystander lookup of the same target ends while the store requests are still out
+    for _ in 0..(6 * scale) {
+        let n = *r.pick(&[2usize, 3, 5, 8]);
+        let kind = r.below(3) as u8;
+        let mut script: Vec<(usize, Act)> = (0..n).map(|p| (p, if r.chance(2, 3) { Act::Ack } else { *r.pick(&alphabet) })).collect();
+        r.shuffle(&mut script);
+        let k = r.below(n as u64) as usize;
+        cases.push("bystander_lookup_during_store", put_case_y(&mut r, n, kind, vec![false; n], script, true, false, Some(k)));
     }
     // all peers tokenless: nothing can be written
     cases.push("no_tokens", put_case(&mut r, 3, 0, vec![true; 3], vec![], true));
